@@ -173,6 +173,46 @@ func scenarios() []*sched.Scenario {
 		}
 	})
 
+	add("event/two-first-hooks-and-a-link-on-a-fresh-event", func() {
+		e, linked := event.New1[int](), event.New1[int]()
+		linked.Hook(hookFn("L"))
+		vrt.Par(
+			func() { e.Hook(hookFn("A")) },
+			func() { e.Hook(hookFn("B")) },
+			func() { linked.LinkTo(e) },
+		)
+		e.Trigger(1)
+		if calls("A") != 1 || calls("B") != 1 || calls("L") != 1 {
+			vrt.Fail("hook-call-count|first-hooks", "hooks A/B attached concurrently to a fresh event and the hook of an event linked to it were called %d/%d/%d times for one trigger", calls("A"), calls("B"), calls("L"))
+		}
+	})
+
+	add("promise/callback-re-enters-its-event", func() {
+		e := promise.NewEvent()
+		n := &vrt.Counts{}
+		var unsubSelf func()
+		unsubSelf = e.OnTrigger(func() {
+			n.Inc("first")
+			if !e.WasTriggered() {
+				n.Inc("not-triggered-inside")
+			}
+			e.OnTrigger(func() { n.Inc("nested") })
+			unsubSelf()
+		})
+		e.OnTrigger(func() { n.Inc("second") })
+		e.Trigger()
+		if n.Get("first") != 1 || n.Get("second") != 1 || n.Get("nested") != 1 {
+			vrt.Fail("promise-callback-count", "a callback that registers another callback, asks WasTriggered and unsubscribes itself: first/second/nested ran %d/%d/%d times", n.Get("first"), n.Get("second"), n.Get("nested"))
+		}
+		p1 := promise.NewEvent1[int]()
+		got := 0
+		p1.OnTrigger(func(v int) { p1.OnTrigger(func(w int) { got = v + w }) })
+		p1.Trigger(4)
+		if got != 8 {
+			vrt.Fail("promise-callback-count", "Event1: a callback registering another one during Trigger: nested callback result %d, expected 8", got)
+		}
+	})
+
 	add("event/linkto-relink-vs-triggers", func() {
 		e1, e2, e3 := event.New1[int](), event.New1[int](), event.New1[int]()
 		e2.Hook(hookFn("L"))
